@@ -12,14 +12,18 @@ pub mod scheme;
 pub mod typeck;
 
 pub mod c01;
+pub mod c02;
+pub mod c03;
 
 use runner::{Run, Sub};
 
-pub const PROPS: &[&str] = &["C01"];
+pub const PROPS: &[&str] = &["C01", "C02", "C03"];
 
 pub fn subs_of(prop: &str) -> Option<Vec<Sub>> {
     match prop {
         "C01" => Some(c01::subs()),
+        "C02" => Some(c02::subs()),
+        "C03" => Some(c03::subs()),
         _ => None,
     }
 }
@@ -27,6 +31,8 @@ pub fn subs_of(prop: &str) -> Option<Vec<Sub>> {
 pub fn run_prop(run: &Run) -> bool {
     match run.prop {
         "C01" => c01::run(run),
+        "C02" => c02::run(run),
+        "C03" => c03::run(run),
         _ => return false,
     }
     true
